@@ -26,6 +26,9 @@ func main() {
 	if len(os.Args) < 2 {
 		usage()
 	}
+	if os.Getenv("GCV_COVER") != "" {
+		coverClauses = true
+	}
 	if d := os.Getenv("GCV_VERIF"); d != "" {
 		verifDir = d
 	}
